@@ -177,7 +177,7 @@ Fixpoint str_eqb (a b : str) : bool :=
 Definition spec_ok (p : program) (k : lkind) (f : field) (sp : spec) : bool :=
   match f with
   | FX | FY | FZ => match s_kind sp with KFixed d => (5 <=? d)%nat | _ => false end
-  | FQ => match s_kind sp with KFixed d => (1 <=? d)%nat | _ => false end
+  | FQ => match s_kind sp with KFixed d => (5 <=? d)%nat | _ => false end      (* charges within 1e-5 e *)
   | FDist => match s_kind sp with KFixed d => (1 <=? d)%nat | KRepr => true | _ => false end
   | FLabel => match s_kind sp with KStr => true | _ => false end
   | FChg | FMult | FI | FJ | FN =>
@@ -256,6 +256,15 @@ Definition env_of_atom (a : atom) : env :=
   mkEnv (a_label a) (a_x a) (a_y a) (a_z a) 0 0 0 0 0 0 0 dummy_text dummy_text.
 Definition write_atoms (tpl : list item) (atoms : list atom) : list str :=
   map (fun a => render (env_of_atom a) tpl) atoms.
+
+(* The block of atom lines as the wrapper's loop produces it.  The loop shape is GENERATED
+   (C17_Gen.coord_loops): only `for atom in <the atoms>` (Python: in list order, every element once) with the
+   binding `x, y, z = atom.coord` and no continue/break/return prints exactly one line per atom in order;
+   for any other shape the model makes no statement (None). *)
+Definition loop_ok (l : loop) : bool :=
+  match l_iter l, l_bind l with IterInOrder, BindXYZ => l_total l | _, _ => false end.
+Definition write_atoms_by (l : loop) (tpl : list item) (atoms : list atom) : option (list str) :=
+  if loop_ok l then Some (write_atoms tpl atoms) else None.
 
 (* first spec of field f in a template / token layout *)
 Fixpoint spec_of_field (f : field) (tpl : list item) : option spec :=
